@@ -115,6 +115,34 @@ def _choose(fn, target):
     return cond.comparators[0], alts.elts[0].id, alts.elts[1].id
 
 
+def _xyz2rgb_literals(f) -> dict:
+    """C20 round 4: the literals of the encoder of `xyz2rgb` that are not shared with `rgb2xyz`:
+    `srgb_high = (1 + a)*np.power(rgb_linear, 1./2.4)` -> exponent numerator `1.` and denominator `2.4`;
+    `srgb_high -= a`; `srgb *= 255.` -> the output scale"""
+    hi = _py_assign(f, 'srgb_high')
+    if not (isinstance(hi, ast.BinOp) and isinstance(hi.op, ast.Mult) and isinstance(hi.right, ast.Call)
+            and getattr(hi.right.func, 'attr', '') == 'power' and len(hi.right.args) == 2
+            and isinstance(hi.left, ast.BinOp) and isinstance(hi.left.op, ast.Add)
+            and isinstance(hi.left.right, ast.Name) and hi.left.right.id == 'a'):
+        raise TranslationError('srgb_high = (1 + a)*np.power(rgb_linear, 1./gamma) expected')
+    ex = hi.right.args[1]
+    if not (isinstance(ex, ast.BinOp) and isinstance(ex.op, ast.Div)):
+        raise TranslationError('exponent 1./gamma expected in xyz2rgb')
+    out = dict(one_inv=_dec(hi.left.left), gamma_inv_num=_dec(ex.left), gamma_inv=_dec(ex.right))
+    aug = {}
+    for n in ast.walk(f):
+        if isinstance(n, ast.AugAssign) and isinstance(n.target, ast.Name):
+            aug[n.target.id] = n
+    sub = aug.get('srgb_high')
+    if not (sub is not None and isinstance(sub.op, ast.Sub) and isinstance(sub.value, ast.Name) and sub.value.id == 'a'):
+        raise TranslationError('srgb_high -= a expected')
+    mul = aug.get('srgb')
+    if not (mul is not None and isinstance(mul.op, ast.Mult)):
+        raise TranslationError('srgb *= 255. expected')
+    out['scale_inv'] = _dec(mul.value)
+    return out
+
+
 def extract_colors(repo: Path) -> dict:
     tree = ast.parse((repo / 'mahotas' / 'colors.py').read_text())
     out = {}
@@ -152,6 +180,7 @@ def extract_colors(repo: Path) -> dict:
     if not (isinstance(lo, ast.BinOp) and isinstance(lo.op, ast.Mult)):
         raise TranslationError('srgb_low = slope * rgb_linear expected')
     out['slope_inv'] = _dec(lo.left)
+    out.update(_xyz2rgb_literals(f))
     f = _func(tree, 'xyz2lab')
     g = _func(f, 'f')
     c, a0, a1 = _choose(g, None)
@@ -222,6 +251,10 @@ def lean_colors(c: dict) -> list[str]:
     s += sc('srgbSlope', c['slope'], 'divisor of the linear branch of `rgb2xyz`')
     s += sc('srgbSlopeInv', c['slope_inv'], 'factor of the linear branch of `xyz2rgb`')
     s += sc('srgbScale', c['scale'], '`rgb/255.`')
+    s += sc('srgbGammaInv', c['gamma_inv'], '`2.4` of the exponent `1./2.4` of the power branch of `xyz2rgb`')
+    s += sc('srgbGammaInvNum', c['gamma_inv_num'], 'numerator `1.` of that exponent')
+    s += sc('srgbOneInv', c['one_inv'], '`1` of `(1 + a)` in `xyz2rgb`')
+    s += sc('srgbScaleInv', c['scale_inv'], '`srgb *= 255.` in `xyz2rgb`')
     s += sc('srgbKnee', c['knee_fwd'], 'threshold of `np.choose` in `rgb2xyz`')
     s += sc('srgbKneeInv', c['knee_inv'], 'threshold of `np.choose` in `xyz2rgb`')
     s += sc('labDeltaNum', c['lab_delta_num'], 'numerator of `6./29` in `xyz2lab`')
@@ -685,9 +718,76 @@ def _blk_structuring(repo: Path):
             ''], dict(translate_sizes=len(ts))
 
 
+# C20 round 4: argument decoding of stretch (stretch.py); emitted inside the colours block (C20's own block)
+
+def extract_stretch_decode(repo: Path) -> dict:
+    """C20 round 4: the decoding of the optional positional arguments of `stretch` (stretch.py):
+    `if arg0 is None: min = 0; max = 255 / elif arg1 is None: min = 0; max = arg0 / else: min = arg0; max = arg1`
+    as a chain [(tested name | None, min value, max value)], plus the defaults of the signature"""
+    tree = ast.parse((repo / 'mahotas' / 'stretch.py').read_text())
+    f = next((n for n in tree.body if isinstance(n, ast.FunctionDef) and n.name == 'stretch'), None)
+    if f is None:
+        raise TranslationError('stretch not found')
+    names = [a.arg for a in f.args.args]
+    defaults = f.args.defaults
+    if names != ['img', 'arg0', 'arg1', 'dtype'] or len(defaults) != 3 or \
+            not all(isinstance(d, ast.Constant) and d.value is None for d in defaults[:2]) or \
+            not (isinstance(defaults[2], ast.Attribute) and isinstance(defaults[2].value, ast.Name) and defaults[2].value.id == 'np'):
+        raise TranslationError('stretch(img, arg0=None, arg1=None, dtype=np.<type>) expected')
+    node = next((n for n in f.body if isinstance(n, ast.If)), None)
+    def none_test(t):
+        if isinstance(t, ast.Compare) and isinstance(t.left, ast.Name) and len(t.ops) == 1 and isinstance(t.ops[0], ast.Is) \
+                and isinstance(t.comparators[0], ast.Constant) and t.comparators[0].value is None and t.left.id in ('arg0', 'arg1'):
+            return t.left.id
+        raise TranslationError('test `argN is None` expected in stretch')
+    def val(v):
+        if isinstance(v, ast.Constant) and isinstance(v.value, int) and not isinstance(v.value, bool):
+            return int(v.value)
+        if isinstance(v, ast.Name) and v.id in ('arg0', 'arg1'):
+            return v.id
+        raise TranslationError('integer literal or arg0/arg1 expected in the decoding of stretch')
+    def assigns(body):
+        got = {}
+        for st in body:
+            if not (isinstance(st, ast.Assign) and len(st.targets) == 1 and isinstance(st.targets[0], ast.Name)
+                    and st.targets[0].id in ('min', 'max')):
+                raise TranslationError('only `min = …` / `max = …` expected in the decoding of stretch')
+            got[st.targets[0].id] = val(st.value)
+        if set(got) != {'min', 'max'}:
+            raise TranslationError('both min and max must be assigned in every branch of the decoding of stretch')
+        return got['min'], got['max']
+    chain = []
+    while True:
+        if not isinstance(node, ast.If):
+            raise TranslationError('if/elif/else chain expected in stretch')
+        chain.append((none_test(node.test),) + assigns(node.body))
+        if len(node.orelse) == 1 and isinstance(node.orelse[0], ast.If):
+            node = node.orelse[0]
+            continue
+        chain.append((None,) + assigns(node.orelse))
+        break
+    return dict(chain=chain, default_dtype=defaults[2].attr)
+
+
+def lean_stretch_decode(d: dict) -> list[str]:
+    def v(x):
+        return f'({x} : Int)' if isinstance(x, int) else f'{x}.getD 0'
+    body = ''
+    for test, lo, hi in d['chain']:
+        pair = f'({v(lo)}, {v(hi)})'
+        body += (f'if {test}.isNone then {pair} else ' if test else pair)
+    return ['/-- C20: the decoding of the optional positional arguments of `stretch` (the `if arg0 is None … elif arg1 is None … else`',
+            '    chain of stretch.py), generated from the source -/',
+            'def stretchDecodeGen (arg0 arg1 : Option Int) : Int × Int :=',
+            '  ' + body,
+            '/-- default `dtype` of `stretch` (attribute name of `np.<type>`) -/',
+            f'def stretchDefaultDtype : String := "{d["default_dtype"]}"', '']
+
+
 def _blk_colors(repo: Path):
     col = extract_colors(repo)
-    return lean_colors(col), dict(colour_constants=len(col))
+    dec = extract_stretch_decode(repo)
+    return lean_colors(col) + lean_stretch_decode(dec), dict(colour_constants=len(col), stretch_decode_branches=len(dec['chain']))
 
 
 def _blk_texture(repo: Path):
